@@ -123,7 +123,8 @@ class Grammar:
         self.alpha = list(alpha) if alpha is not None else None
         self.maxlen = maxlen
         self.extra = [list(x) for x in extra]
-        self.real_extra = []      # inputs run on the real parsers only (too long for model checking)
+        self.real_extra = []      # inputs beyond the exhaustive bound: real parsers + lean model run
+        self.huge_extra = []      # tens of kilobytes: real parsers only, judged by the predicates that need no model
         self.meta = meta or {}
 
     def rule(self, name):
